@@ -411,6 +411,34 @@ def steering(ctx):
                 bad = {k: x for k, x in final.items() if x not in (0, 3)}
                 if bad:
                     ob.refute("sel:%s:%s" % (tag, s), "state %s steers %s although no chooser is enabled there" % (s, bad), f.acts[s][0].loc)
+        # accept implies steered: a source whose `ready` can be high in a state must sit on some phase in that state,
+        # otherwise its command is acknowledged to the bank machine but never reaches the DFI bus
+        st_inst = [o for o in v.instances_of("_Steerer")]
+        if ob.need(len(st_inst) == 1 and st_inst[0].args and isinstance(st_inst[0].args[0], ListV), "%s: steerer command list not found" % tag):
+            srcs = [key(x) for x in st_inst[0].args[0].items]
+            for idx, src in enumerate(srcs):
+                if idx == 0:
+                    continue
+                for l in v.drivers(src + ".ready"):
+                    if is0(l.value):
+                        continue
+                    states = [l.state] if l.fsm is not None else list(f.states) + list(fsm_graph(v, f)[1])
+                    for stt in states:
+                        sels = set()
+                        for m in v.fsm_leaves(f, stt):
+                            if m.kind == "assign" and str(m.target).startswith("steerer.sel[") and not m.guards and isinstance(m.value, Const):
+                                sels.add(m.value.v)
+                        # later unconditional assignments win; collect the final value per select
+                        final = {}
+                        for m in v.fsm_leaves(f, stt):
+                            if m.kind == "assign" and str(m.target).startswith("steerer.sel[") and isinstance(m.value, Const):
+                                final[str(m.target)] = m.value.v
+                        aliases = {i for i, x in enumerate(srcs) if x == src}
+                        if not (set(final.values()) & aliases):
+                            ob.refute("accepted-not-steered:%s:%s:%s" % (tag, stt, src), "in state %s %s.ready can be asserted (%s) but no phase "
+                                      "selects that source (selects %s): an accepted command would never reach the DFI bus while the bank "
+                                      "machine believes it was issued" % (stt, src, l, final), l.loc)
+                ob.instance("%s accept-implies-steered %s" % (tag, src), len(v.drivers(src + ".ready")))
         # chooser wants
         if nph > 1:
             cmdch = [c for c in ch if c is not list(modes.values())[0][2]][0]
